@@ -97,7 +97,7 @@ func Write(fd *os.File, p []byte) (int, error) {
 }
 
 func Read(fd *os.File, p []byte) (int, error) {
-	if fd == nil { // os.Stdin of the harness process
+	if fd == nil || fd == os.Stdin { // the standard input of the process
 		if stdinOff >= len(Stdin) {
 			return 0, io.EOF
 		}
